@@ -182,6 +182,9 @@ fn main() {
             return;
         }
         let (name, d, lvl) = &fam[i];
+        if i % 400 == 0 {
+            run.sample(json!({"part": 1, "diagram": name, "pd": d.pd(), "config_level": lvl}));
+        }
         check_diagram(&run, name, d, *lvl);
     });
     let part1 = run.get("evaluations");
